@@ -12,6 +12,20 @@ import numpy as np
 
 ATOMS = (str, bytes, int, float, complex, bool, type(None), np.generic)
 
+# the state attributes of the three classes (what BB.Model.Heap models); further attributes a
+# rewrite may add (memo tables, ...) are not part of the observation
+STATE_ATTRS = {"BluePrint": ("_funlist", "_argslist", "_namelist", "marker1", "marker2", "_segmark1", "_segmark2", "_durslist", "_SR"),
+               "Element": ("_data", "_meta"),
+               "Sequence": ("_data", "_sequencing", "_awgspecs", "_meta", "_name")}
+
+
+def state_items(o):
+    names = STATE_ATTRS.get(type(o).__name__)
+    d = vars(o)
+    if names is None:
+        return list(d.items())
+    return [(n, d[n]) for n in names if n in d]
+
 
 def cells(obj):
     seen = {}
@@ -40,7 +54,7 @@ def cells(obj):
             return
         if hasattr(o, "__dict__"):
             seen[id(o)] = "mut"
-            for name, v in vars(o).items():
+            for name, v in state_items(o):
                 visit(v, "awgspecs" if name == "_awgspecs" else None)
             return
         seen[id(o)] = "mut"
@@ -63,7 +77,7 @@ def snapshot(o):
     if isinstance(o, (list, tuple)):
         return ("l", tuple(snapshot(x) for x in o))
     if hasattr(o, "__dict__"):
-        return ("o", type(o).__name__, tuple((n, snapshot(v)) for n, v in vars(o).items() if n != "_meta"))
+        return ("o", type(o).__name__, tuple((n, snapshot(v)) for n, v in state_items(o) if n != "_meta"))
     return repr(o)
 
 
